@@ -7,17 +7,17 @@ CHECKS = {
  # id: (engine, category, technique, level text, level note, design_ref)
  "C01": ("E3 sweep", "model_checking",
          "exhaustive enumeration of login tuples (alphabet products, contiguous key ranges, counter-mode RNG scripts, constructed rare-class witnesses) on the real typestate API under a scripted RNG",
-         "Every login in the stated finite spaces, and every sequence of 2 (thorough: 3) logins over 11 configurations executed back to back on one thread, is run through the real public API with salt, b and a chosen by the explorer; oracle: both sides accept, byte-identical K, accessors return what was stored, the exchange after export/re-import is identical to the direct one. Rare classes (S with 1/2/3 low zero bytes, high zero bytes in S/A/B/v, negative B-k*v) are constructed witnesses re-validated by the reference model on every run.",
+         "Every login in the stated finite spaces, and every sequence of 2 (thorough: 3) logins over 11 configurations executed back to back on one thread, is run through the real public API with salt, b and a chosen by the explorer; oracle: both sides accept, byte-identical K, accessors return what was stored, the exchange after export/re-import is identical to the direct one. Rare classes (S with 1/2/3 low zero bytes, high zero bytes in S/A/B/v incl. v, A, B one 32-bit limb short, B just below N, u and x below 2^128, negative B-k*v) are constructed witnesses re-validated by the reference model on every run.",
          "Complete over the stated alphabets/ranges/witnesses, not over 2^256 keys and salts; RNG seam trusted to be the library's only entropy source (checked by draw log).",
          "DESIGN.md section 3, C01"),
  "C02": ("E2 choices", "model_checking",
          "deviation-bounded exploration of an adversary on the wire (typed credentials, every single-bit change of B, salt, A, M1, M2) over the real four-message exchange, exact-equality reference oracle per party",
-         "For each session every execution with <= 1 deviation (1,095 per session, incl. A replaced by A+N) and, for a few sessions, every pair of deviations is run on the real code; each party must accept iff the presented proof equals the reference proof determined by its own view, errors must carry both proofs. Structured multi-bit alterations of M1 and M2 (all pairs of bit flips in the thorough tier, byte replacements, truncations, rotations, word-cancelling flips) are run against clones of the real typestate objects.",
+         "For each session every execution with <= 1 deviation (1,095 per session, incl. A replaced by A+N) and, for a few sessions, every pair of deviations is run on the real code; each party must accept iff the presented proof equals the reference proof determined by its own view, errors must carry both proofs. Structured multi-bit alterations of M1 and M2 (all pairs of bit flips in the thorough tier, byte replacements, truncations, rotations, word-cancelling flips) are run against clones of the real typestate objects. Confusable credentials (blanks trimmed / collapsed / doubled / dropped, a character doubled or dropped, user and password swapped) must be refused whenever the reference normalisation keeps them apart.",
          "Session alphabet finite; deviation bound 1 (2 for a few sessions).",
          "DESIGN.md section 3, C02"),
  "C03": ("E3 sweep", "model_checking",
          "exhaustive enumeration against an independent reference model: login tuples, all 32x32 zero-byte shapes of S through the internal-function seam, all generators 2..255 x prime moduli alphabet on the client",
-         "v, B, A, K, M1, M2 from the public accessors are compared byte for byte with a reference model that shares no code with the library (own SHA-1/bigint), itself validated against Python and the repository's vectors; the S-shape dimension (every count of low/high zero bytes) is closed completely at the seam; announced groups are closed over all 254 generators x 17 prime moduli.",
+         "v, B, A, K, M1, M2 from the public accessors are compared byte for byte with a reference model that shares no code with the library (own SHA-1/bigint), itself validated against Python and the repository's vectors; the S-shape dimension (every count of low/high zero bytes) is closed completely at the seam; announced groups are closed over all 254 generators x 17 prime moduli; the server's B is steered (through a constructed verifier and scripted b) to every count of high/low zero bytes and to 2^k, N-2^k for k = 0..255 with quotients 0..4 of (3v+g^b)/N.",
          "Key/salt space and modulus alphabet finite; reference model trusted after its self-test.",
          "DESIGN.md section 3, C03"),
  "C04": ("E3 sweep", "model_checking",
@@ -27,7 +27,7 @@ CHECKS = {
          "DESIGN.md section 3, C04"),
  "C05": ("E2 choices", "model_checking",
          "deviation-bounded exploration of reconnect-attempt histories (replays, stale challenges, wrong key/name, all proof and client-data bit flips, repeated nonces) on one real SrpServer, reference state (U, K, current challenge)",
-         "All histories of length 6 (quick) / 8 and 12 (thorough) with at most 2 (resp. 1, 3) deviating attempts or refreshes over an alphabet of ~330 adversary actions are executed on the real object; verdict must equal proof == SHA1(U|client_data|current challenge|K) and every attempt must replace the challenge.",
+         "All histories of length 6 (quick) / 8 and 12 (thorough) with at most 2 (resp. 1, 3) deviating attempts or refreshes over an alphabet of ~330 adversary actions are executed on the real object; verdict must equal proof == SHA1(U|client_data|current challenge|K) and every attempt must replace the challenge (the RNG may also answer all-zero / all-ones / an earlier challenge at a refresh).",
          "History length and deviation count bounded; sessions from an alphabet.",
          "DESIGN.md section 3, C05"),
  "C06": ("E3 sweep", "model_checking",
@@ -72,12 +72,12 @@ CHECKS = {
          "DESIGN.md section 3, C13"),
  "C14": ("E3 sweep + E1", "model_checking",
          "enumeration of adversarial and algebraically targeted peer values (incl. B = k*v mod N forcing S = 0) through the typestate API with catch_unwind; BFS over header byte sequences",
-         "Every combination of the adversarial alphabets for A, M1, reconnect values (server) and B, salt, M2 (client) with a and b pinned by the RNG script is executed; no call may unwind and results must match the reference where it is defined; header decrypt calls in any order (incl. the Wrath large-header byte before any attempt, short readers) are explored by BFS; chosen-plaintext headers (every first byte x alphabets) go through every decrypt entry point; runs of 66,000+ rejected reconnect attempts; the library is built with overflow checks and debug assertions on.",
+         "Every combination of the adversarial alphabets for A, M1, reconnect values (server) and B, salt, M2 (client) with a and b pinned by the RNG script is executed; no call may unwind and results must match the reference where it is defined; header decrypt calls in any order (incl. the Wrath large-header byte before any attempt, short readers) are explored by BFS; chosen-plaintext headers (every first byte x alphabets) go through every decrypt entry point; runs of 66,000+ rejected reconnect attempts; raw encrypt/decrypt calls of every length 0..=600 from every position 0..=40 on all seven cipher objects; the library is built with overflow checks and debug assertions on.",
          "Byte values outside the adversarial alphabets are not explored.",
          "DESIGN.md section 3, C14"),
  "C15": ("E2/E3 over the RNG environment", "model_checking",
-         "enumeration of RNG answers (counter, all-zero, all-ones, one-hot at every draw-byte position) and call histories for each of the 15 drawing sites through the scripted-RNG seam",
-         "For every documented drawing call: later calls draw again, values never repeat when the RNG supplied different bytes, every draw byte changes the value, every output byte varies, the draw is at least as wide as the value; card digits stay in 0..=9 and every cell varies. A free-running two-thread sampling pass is supplementary and labelled as such.",
+         "enumeration of RNG answers (counter, all-zero, all-ones, one-hot at every draw-byte position, the previously produced value fed back) and call histories for each of the 15 drawing sites through the scripted-RNG seam",
+         "For every documented drawing call: later calls draw again, values never repeat when the RNG supplied different bytes, every draw byte changes the value, every output byte varies, the draw is at least as wide as the value; card digits stay in 0..=9, every cell varies and no digit position copies another (cards up to 1,920 digits). A free-running two-thread sampling pass is supplementary and labelled as such.",
          "Statistical quality of rand::ThreadRng is trusted (outside this family).",
          "DESIGN.md section 3, C15"),
  "C16": ("E3 sweep", "model_checking",
